@@ -3,7 +3,8 @@ import vlib
 from props import common, mix, scr, disp
 
 THM = "NextestModel.Thm.C18"
-GEN = []
+GEN = ["tables"]
+GEN_GROUPS = ["scripts"]
 TRUSTED = ["model: Model/Scripts (enabled set, definition order, parse_env_file, SetupScriptExecuteData::apply); the truth of each rule's platform/filter for each test is an input of the model (C05/C06 decide it) and is computed independently by the scenario generator",
            "serial execution, completion before the first test, and the exit status are observed end-to-end on the scripted processes' own records (executor sequencing is not modelled)"]
 ASSUMPTIONS = ["a failing script cancelling the run with exit status 105 is proved in C10.script_failure_always_cancels + C01.exit_codes and observed here end-to-end"]
